@@ -7,7 +7,6 @@ use crate::lib_build::{flat, lib_act, shape_consistent, shape_dims, tensor_of};
 use crate::refmodel::{sigmoid64, EPS32};
 use crate::rng::Rng;
 use neurons::activation::Function;
-use neurons::tensor::Tensor;
 
 pub struct C07;
 
